@@ -1080,8 +1080,12 @@ def gen_resolve(rng, n):
             s = ":" + base
         elif k < 0.3:
             s = "::" + base
-        elif k < 0.45:
+        elif k < 0.42:
             s = rng.choice([" ", "\t", "\n"]) + base + rng.choice(["", " ", "\r\n"])
+        elif k < 0.45:
+            # characters that are white space for Unicode but not for the C locale: not to be stripped
+            ws = ["\x0b", "\u0085", "\u00a0", "\u2000", "\u3000", "\x1c", "\x1f"]
+            s = rng.choice(ws + [""]) + base + rng.choice(ws + ["", ""])
         elif k < 0.5:
             s = rng.choice(["", ":", " ", "localtime ", ":localtime", "/etc/localtime"])
         stems = {s, s.strip(" \t\n\r\x0c"), s.lstrip(":"), ":" + s}
@@ -1098,7 +1102,29 @@ def gen_resolve(rng, n):
             content = list(tiny_tzif(rng)) if r < 0.8 else ([-1] if r < 0.9 else list(rng.choice([b"", b"TZif9", b"garbage", tiny_tzif(rng)[:-2]])))
             vfs.append([B(p), content])
         rng.shuffle(vfs)
-        yield {"op": "resolve", "a": {"s": B(s), "dirs": [B(d) for d in dirs], "vfs": vfs, "via": "posix"}, "g": 1}
+        a = {"s": B(s), "dirs": [B(d) for d in dirs], "vfs": vfs, "via": "posix"}
+        if rng.random() < 0.3:
+            # earlier resolutions on the same settings value: other names, found in various directories (or nowhere)
+            pre = []
+            for _ in range(rng.randint(1, 3)):
+                pn = rng.choice(["Only", "Other/Zone", base, "EST5", ":Only", "missing"])
+                pre.append(B(pn))
+                for d in dirs:
+                    if rng.random() < 0.4:
+                        vfs.append([B(d + "/" + pn.lstrip(":")), list(tiny_tzif(rng))])
+            a["pre"] = pre
+        yield {"op": "resolve", "a": a, "g": 1}
+    # the same settings value used twice: a name found only in a later directory, then a name present in that directory and an earlier one
+    for _ in range(max(4, n // 100)):
+        nd = rng.randint(2, 4)
+        dirs = rng.sample(["/d1", "/d2", "/d3", "/d4", "rel"], nd)
+        kdir = rng.randrange(1, nd)
+        first = rng.choice(["Only", "A/B", "EST5"])
+        second = rng.choice(["Both", "UTC0", "Europe/Paris"])
+        vfs = [[B(dirs[kdir] + "/" + first), list(tiny_tzif(rng))]]
+        for i in sorted(rng.sample(range(nd), rng.randint(2, nd)) + [kdir]):
+            vfs.append([B(dirs[i] + "/" + second), list(tiny_tzif(rng))])
+        yield {"op": "resolve", "a": {"s": B(rng.choice(["", ":"]) + second), "dirs": [B(d) for d in dirs], "vfs": vfs, "via": "posix", "pre": [B(first)]}, "g": 1}
 
 
 # ---- C07: hostile inputs ----
